@@ -25,8 +25,54 @@ def name_index_ok(t, name_param):
     return l[0] == "call" and isinstance(l[1], str) and l[1].endswith("::len") and l[2] and l[2][0] == P(name_param)
 
 
+ANCHORS = ["create_equalizer", "project_out_hctl_var", "project_out_bn_vars", "substitute_hctl_var", "compute_valid_domain_for_var", "restrict_stg_unit_bdd"]
+WRAPPERS = ["create_comparator_var_state", "create_comparator_two_vars"]
+
+
+def engine(prog):
+    """Helpers of the module are inlined; the primitives themselves stay opaque when they call each other (the thin
+    comparator wrappers are inlined, so that the equations are written over create_equalizer)."""
+    return terms.Engine(prog, inline=True, hooks=E.Hooks([LOW], opaque_names=[LOW + a for a in ANCHORS]))
+
+
+def leaves(t, conds=()):
+    """(conditions, leaf) pairs of an ite tree."""
+    if isinstance(t, tuple) and t and t[0] == "ite":
+        return leaves(t[2], conds + ((t[1], True),)) + leaves(t[3], conds + ((t[1], False),))
+    if isinstance(t, tuple) and t and t[0] == "join":
+        out = []
+        for x in t[1]:
+            out += leaves(x, conds)
+        return out
+    return [(conds, t)]
+
+
+def iter_src(t):
+    while isinstance(t, tuple) and t and t[0] == "call" and isinstance(t[1], str) and t[1].rsplit("::", 1)[-1] in \
+            ("iter", "into_iter", "rev", "cloned", "copied", "by_ref", "enumerate") and len(t[2]) == 1:
+        t = t[2][0]
+    return t
+
+
+def elems_range_over(t, alg, want):
+    """Every element variable in t ranges over `want` (the network variables), whatever loop / iterator idiom is used."""
+    es = [x for x in subterms(t) if x[0] == "elem"]
+    return bool(es) and all(alg.canon(iter_src(x[1])) == want for x in es)
+
+
+def eq_names(t, a, b):
+    """t is `a == b` / `!(a != b)` ... returns True for equality, False for inequality, None otherwise."""
+    neg = False
+    while t[0] == "not":
+        neg = not neg
+        t = t[1]
+    if t[0] == "bin" and t[1] in ("==", "!=") and {t[2], t[3]} == {a, b}:
+        return (t[1] == "==") != neg
+    return None
+
+
 def check_primitives(prog, rep, rule):
-    eng = terms.Engine(prog, inline=True, hooks=E.Hooks([], inline_names=[]))     # nothing inlined
+    eng = engine(prog)
     # --- create_equalizer -------------------------------------------------------------------------
     f = _fn(prog, "create_equalizer")
     if f is None:
@@ -39,11 +85,8 @@ def check_primitives(prog, rep, rule):
         g = P(pn[0])
         problems = []
         alg = setalg.Alg()
-        # result is bounded by the unit set of the graph:  ret == ret & unit(g)
         if not alg.equivalent(alg.interp(s.ret), ("and", alg.interp(s.ret), alg.interp(S.UNIT(g)))):
             problems.append("the comparator is not intersected with the unit set")
-        # every conjunct added in the loops is an `iff` between two BDD variables, one of which is the
-        # `<net var>_extra_<len(name)-1>` copy of the variable named by the first name parameter
         iffs = calls(s.ret, "iff")
         if len(iffs) < 2:
             problems.append("expected one bitwise equivalence per branch (state / other variable)")
@@ -57,7 +100,7 @@ def check_primitives(prog, rep, rule):
                 names.append(mk[0][2][-1])
             fm = []
             for n in names:
-                fm += [x for x in subterms(n) if x[0] == "fmt"][:1]
+                fm += [x for x in [n] + list(subterms(n)) if x[0] == "fmt"][:1]
             own = False
             for n in fm:
                 pieces = n[1]
@@ -65,19 +108,17 @@ def check_primitives(prog, rep, rule):
                 lits = [p for p in pieces if isinstance(p, str)]
                 if lits == ["_extra_"] and len(args) == 2 and name_index_ok(args[1][1], pn[1]):
                     own = True
-                # every index must be len(<a name parameter>) - 1
-                if len(args) == 2 and not (name_index_ok(args[1][1], pn[1]) or (len(pn) > 2 and args[1][1][0] == "bin" and args[1][1][1] == "-")):
+                if len(args) == 2 and not (args[1][1][0] == "bin" and args[1][1][1] == "-" and args[1][1][3] == ("lit", 1)
+                                           and args[1][1][2][0] == "call" and args[1][1][2][1].endswith("::len")):
                     problems.append("symbolic copy index is not `name.len() - 1`")
             if not own:
                 problems.append("no operand is the `<var>_extra_<len(name)-1>` copy of the variable being compared")
-        # both loops range over all network variables
-        fors = [x for x in s.sites if x.kind == "for"]
         want = alg.canon(("call", S.GRAPH + "variables", (g,)))
-        if not fors or any(alg.canon(x.args[0]) != want for x in fors):
+        if not elems_range_over(s.ret, alg, want):
             problems.append("a loop does not range over all network variables")
-        # the conjunction is accumulated with `and` starting from the unit BDD
-        ands = calls(s.ret, "and")
-        if not ands:
+        # the conjunction is accumulated with `and` over the loop (for-loop or fold), starting from the unit BDD
+        acc = [x for x in subterms(s.ret) if x[0] == "mu" and x[4][0] == "call" and x[4][1].endswith("::and") and ("loopvar", x[1], x[2]) in x[4][2]]
+        if len(acc) < 2:
             problems.append("conjuncts are not accumulated with `and`")
         rep.check(not problems, rule, "create_equalizer", where,
                   "comparator = unit & AND_v (copy(name)_v <=> other_v), copy index = name.len() - 1", "; ".join(sorted(set(problems))))
@@ -98,7 +139,8 @@ def check_primitives(prog, rep, rule):
             bdd, vars_ = ex[0][2][0], ex[0][2][1]
             if not terms.mentions_param(bdd, pn[1]):
                 problems.append("projection is not applied to the set argument")
-            gets = calls(vars_, "get")
+            gets = [c for c in subterms(vars_) if c[0] == "call" and isinstance(c[1], str) and c[1].rsplit("::", 1)[-1] == "get" and len(c[2]) == 2] + \
+                   [("call", "index", (c[1], c[2])) for c in subterms(vars_) if c[0] == "index"]
             extra = calls(vars_, "extra_state_variables")
             if not extra or not gets:
                 problems.append("projected variables are not taken from extra_state_variables(v).get(index)")
@@ -106,9 +148,8 @@ def check_primitives(prog, rep, rule):
                 if not any(name_index_ok(c[2][-1], pn[2]) for c in gets):
                     problems.append("index of the projected copy is not `name.len() - 1` of the variable name parameter")
                 alg = setalg.Alg()
-                fors = [x for x in s.sites if x.kind == "for"]
                 want = alg.canon(("call", S.GRAPH + "variables", (g,)))
-                if not fors or any(alg.canon(x.args[0]) != want for x in fors):
+                if not elems_range_over(vars_, alg, want):
                     problems.append("loop does not range over all network variables")
             if calls(vars_, "state_variables") or calls(vars_, "parameter_variables"):
                 problems.append("state or parameter variables are projected")
@@ -130,45 +171,44 @@ def check_primitives(prog, rep, rule):
             bdd, vars_ = ex[0][2][0], ex[0][2][1]
             if not terms.mentions_param(bdd, pn[1]):
                 problems.append("projection is not applied to the set argument")
-            sv = calls(vars_, "state_variables")
             if not (vars_[0] == "call" and vars_[1].endswith("::state_variables")):
                 problems.append(f"projected variable set is {short(vars_, 80)}, not exactly symbolic_context().state_variables()")
         rep.check(not problems, rule, "project_out_bn_vars", f"{f.file}:{f.line}",
                   "exists over exactly the state variables", "; ".join(problems))
     # --- compound primitives: compared as equations over the three primitives above ------------------
-    eq_engine = terms.Engine(prog, inline=True, hooks=E.Hooks([], inline_names=[LOW + "create_comparator_var_state",
-                                                                                LOW + "create_comparator_two_vars"]))
     f = _fn(prog, "substitute_hctl_var")
     if f is not None:
         rep.functions.add(f.qual)
-        s = eq_engine.summary(f)
+        s = eng.summary(f)
         pn = f.param_names()
         g, st, b, a = (P(x) for x in pn[:4])
         cmp2 = ("call", LOW + "create_equalizer", (g, b, ("ctor", E.SOME, (a,))))
         want = E.PROJ_VAR(g, S.AND(st, cmp2), b)
-        rets = [r for r in s.returns if r[5] != "try"]
         good = True
         why = []
-        for r in rets:
-            t = r[0]
+        lv = leaves(s.ret)
+        for conds, t in lv:
             if same(setalg.Alg(), t, want):
                 continue
             if t == st:
                 # identity is only correct when both names are equal
-                if any(c[0] == "if" and c[2] and c[1] == ("bin", "==", b, a) or (c[0] == "if" and c[2] and c[1] == ("bin", "==", a, b)) for c in r[1]):
+                if any(eq_names(c, a, b) is not None and eq_names(c, a, b) == pol for c, pol in conds):
                     continue
                 why.append("returns the input unchanged without the names being equal")
             else:
                 why.append(f"returns {short(t, 160)}")
             good = False
-        rep.check(good and rets, rule, "substitute_hctl_var", f"{f.file}:{f.line}",
+        if not any(same(setalg.Alg(), t, want) for _, t in lv):
+            good = False
+            why.append("never renames")
+        rep.check(good, rule, "substitute_hctl_var", f"{f.file}:{f.line}",
                   "renaming = project_out(before)(set & equalizer(before, after)); identity iff the names are equal", "; ".join(why))
     else:
         rep.unresolved(rule, "substitute_hctl_var", "", "function not found")
     f = _fn(prog, "compute_valid_domain_for_var")
     if f is not None:
         rep.functions.add(f.qual)
-        s = eq_engine.summary(f)
+        s = eng.summary(f)
         pn = f.param_names()
         g, d, v = (P(x) for x in pn[:3])
         cmp1 = ("call", LOW + "create_equalizer", (g, v, ("ctor", E.NONE, ())))
